@@ -84,9 +84,9 @@ def check(case):
     if not _same(a, b):
         f.append(('parse', '%s: %s, reference %s' % (short(s, 120), short(a, 200), short(b, 200))))
     rt, rerr = rparse.ref_iterparse(s)
-    for form, x in (('str', s), ('lines', split_keepends(s))):
+    for form, x in (('str', s), ('lines', split_keepends(s)), ('bare-lines', rlex.split_lines(s))):
         it, ierr = _impl_iter(x)
-        if form == 'lines':
+        if form != 'str':
             rt, rerr = rparse.ref_iterparse(x)
         refs = [('ok', n, m) for n, m in rt]
         re_ = None if rerr is None else (rerr.lineno, rerr.offset)
